@@ -59,11 +59,70 @@ func runC11(c *Ctx) {
 
 	// ------------------------------------------------------------------------------------------------ R1
 	c.rule("C11-R1", "every store to head/tail wraps correctly for any accepted size (0, % size, or add then conditional subtract of size)", 4)
+	type curStore struct {
+		fn    *ssa.Function
+		cur   *types.Var
+		st    *ssa.Store
+		isCur func(ssa.Value) bool
+		all   []*ssa.Store
+	}
+	var work []curStore
 	for _, fn := range methods {
 		for _, cur := range []*types.Var{head, tail} {
-			stores := storesTo(fn, cur)
-			for _, a := range stores {
-				st := a.Instr.(*ssa.Store)
+			cur := cur
+			var all []*ssa.Store
+			for _, a := range storesTo(fn, cur) {
+				all = append(all, a.Instr.(*ssa.Store))
+			}
+			for _, st := range all {
+				work = append(work, curStore{fn, cur, st, func(v ssa.Value) bool { return loadOfField(v, cur) }, all})
+			}
+		}
+		// a cursor updated through a pointer parameter (advance(&b.tail, n)): the stores `*q = ...` of the function that
+		// receives the pointer, judged as updates of the cursor every call binds q to
+		for _, q := range fn.Params {
+			q := q
+			var bound *types.Var
+			okAll := true
+			for _, site := range p.callers(fn) {
+				for i, prm := range fn.Params {
+					if prm != q || i >= len(site.Common().Args) {
+						continue
+					}
+					fv, _ := fieldAddrOf(stripConv(site.Common().Args[i]))
+					if fv != head && fv != tail {
+						okAll = false
+					} else if bound == nil || fv == head || fv == tail {
+						bound = fv
+					}
+				}
+			}
+			if bound == nil || !okAll {
+				continue
+			}
+			var all []*ssa.Store
+			eachInstr(fn, func(in ssa.Instruction) {
+				if st, ok := in.(*ssa.Store); ok && st.Addr == ssa.Value(q) {
+					all = append(all, st)
+				}
+			})
+			isDeref := func(v ssa.Value) bool {
+				u, ok := stripConv(v).(*ssa.UnOp)
+				return ok && u.Op == token.MUL && u.X == ssa.Value(q)
+			}
+			for _, st := range all {
+				work = append(work, curStore{fn, bound, st, isDeref, all})
+			}
+		}
+	}
+	{
+		{
+			for _, wk := range work {
+				fn, cur, st, isCur := wk.fn, wk.cur, wk.st, wk.isCur
+				var stores []fieldAccess
+				for _, s2 := range wk.all {
+					stores = append(stores, fieldAccess{Instr: s2, Val: s2.Val})
+				}
 				v := stripConv(st.Val)
 				what := "store " + cur.Name()
 				if isConstInt(v, 0) {
@@ -73,13 +132,13 @@ func runC11(c *Ctx) {
 				if wc, ok := v.(*ssa.Call); ok {
 					// the wrap moved into a helper: cur = wrap(cur + amount)
 					if callee := wc.Call.StaticCallee(); callee != nil && isWrapHelper(callee, size) && len(wc.Call.Args) == 3 {
-						if loadOfField(wc.Call.Args[1], cur) != loadOfField(wc.Call.Args[2], cur) {
+						if isCur(wc.Call.Args[1]) != isCur(wc.Call.Args[2]) {
 							c.ok(fn, what, st.Pos(), "advance wrapped by "+callee.Name())
 							continue
 						}
 					}
 					if callee := wc.Call.StaticCallee(); callee != nil && isWrapHelper(callee, size) && len(wc.Call.Args) == 2 {
-						if add, ok := stripConv(wc.Call.Args[1]).(*ssa.BinOp); ok && add.Op == token.ADD && (loadOfField(add.X, cur) || loadOfField(add.Y, cur)) {
+						if add, ok := stripConv(wc.Call.Args[1]).(*ssa.BinOp); ok && add.Op == token.ADD && (isCur(add.X) || isCur(add.Y)) {
 							c.ok(fn, what, st.Pos(), "advance wrapped by "+callee.Name())
 							continue
 						}
@@ -96,17 +155,17 @@ func runC11(c *Ctx) {
 				case bo.Op == token.AND:
 					// mask: only sound for powers of two
 					c.check(ctorValidatesPow2(ctor, size), fn, what, st.Pos(), "masked; the constructor only accepts powers of two", "the cursor is wrapped with a bit mask although the constructor accepts sizes that are not a power of two: after the first wrap the cursor lands on a wrong offset and claims alias committed bytes")
-				case bo.Op == token.SUB && loadOfField(bo.X, cur) && loadOfField(bo.Y, size):
+				case bo.Op == token.SUB && isCur(bo.X) && loadOfField(bo.Y, size):
 					// the conditional subtract: guarded by cur >= size
 					good := false
 					for _, l := range guardsOf(st.Block()) {
-						op, x, y, ok := l.cmpWhere(func(v ssa.Value) bool { return loadOfField(v, cur) })
-						if ok && op == token.GEQ && loadOfField(x, cur) && loadOfField(y, size) {
+						op, x, y, ok := l.cmpWhere(isCur)
+						if ok && op == token.GEQ && isCur(x) && loadOfField(y, size) {
 							good = true
 						}
 					}
 					c.check(good, fn, what, st.Pos(), "subtracts size exactly when the cursor reached it", "size is subtracted from the cursor under a test other than cursor >= size: a cursor equal to size is left outside the ring (or a valid one is wrapped)")
-				case bo.Op == token.ADD && (loadOfField(bo.X, cur) || loadOfField(bo.Y, cur)):
+				case bo.Op == token.ADD && (isCur(bo.X) || isCur(bo.Y)):
 					// must be followed on every path by the wrap test
 					okp, why := mustPass(st, func(in ssa.Instruction) bool {
 						ifi, ok := in.(*ssa.If)
@@ -118,8 +177,8 @@ func runC11(c *Ctx) {
 						if !ok {
 							return false
 						}
-						op2, x2, y2, ok2 := binCmpWhere(b2, func(v ssa.Value) bool { return loadOfField(v, cur) })
-						return ok2 && (op2 == token.GEQ || op2 == token.LSS) && loadOfField(x2, cur) && loadOfField(y2, size)
+						op2, x2, y2, ok2 := binCmpWhere(b2, isCur)
+						return ok2 && (op2 == token.GEQ || op2 == token.LSS) && isCur(x2) && loadOfField(y2, size)
 					})
 					// and the subtract must exist
 					hasSub := false
